@@ -64,7 +64,7 @@ func reuseMatrix(r *ev.Run, kind storeKind, gran string, ks ksrig.FullKeyStore) 
 				det := func(use int, op string, l layer, extra map[string]interface{}) map[string]interface{} {
 					m := map[string]interface{}{"matrix": "tokens used again", "store": cfgFull, "type": typeName(typ), "mode": modeName(consistent), "value": v.full(), "client": string(clientIDs[ctx]),
 						"created_through": layerNames[tl], "use_after_creation": use, "operation": op, "entry": layerNames[l],
-						"uses": "use 0 = creation; then 3 rounds of {owner detokenize, consistent tokenize again (consistent mode only)}",
+						"uses":   "use 0 = creation; then 3 rounds of {owner detokenize, consistent tokenize again (consistent mode only)}",
 						"replay": fmt.Sprintf("VERIF_SEED=%d ./check C10 %s", r.Seed, r.Tier)}
 					for k, x := range extra {
 						m[k] = x
@@ -86,6 +86,7 @@ func reuseMatrix(r *ev.Run, kind storeKind, gran string, ks ksrig.FullKeyStore) 
 					r.Violation(fmt.Sprintf("format: %s: layer=%s type=%s", problem, layerNames[tl], typeName(typ)), det(0, "tokenize", tl, nil))
 					continue
 				}
+				checkTokenFormat(r, tl, v, tok, det(0, "tokenize", tl, map[string]interface{}{"token": tok.full()}))
 				r.Count("reuse_matrix_tokens", 1)
 				use, failed := 0, false
 				fail := func(what, op string, l layer, extra map[string]interface{}) {
